@@ -450,6 +450,9 @@ def execute(rec):
             if (v >> mbits) & ebits == ebits and v & ((1 << mbits) - 1):
                 e, so, v = e[1], sort_of(e[1], None), float("nan")
         c = value_constraint(build_ref(e, ctx), so, v, ctx)
+        if e[0] == "fp2bv" and not isinstance(c, str):
+            # ... and whatever bits come back for a NaN operand are as good as any other
+            c = z3.Or(c, z3.fpIsNaN(build_ref(e[1], ctx), ctx))
         stats["values_checked"] += 1
         if isinstance(c, str):
             raise Violation("value-not-of-the-sort", {"op_index": i, "op": op["op"], "e": e, "value": repr(v), "why": c,
